@@ -251,6 +251,25 @@ func runC15(c *kit.Ctx) {
 
 	// ---- R4 ---------------------------------------------------------------
 	c.StartRule("R4", "the codec appends to dst and reports what it appended", 2)
+	// Decode fails only when the library fails: no acceptance condition of its own
+	// (a conforming server may use larger chunks than this client writes)
+	kit.Instrs(sDec, func(in ssa.Instruction) {
+		r, ok := in.(*ssa.Return)
+		if !ok {
+			return
+		}
+		ev := returnedError(r)
+		if ev == nil || kit.IsNilConst(kit.Root(ev)) {
+			return
+		}
+		good := false
+		if ex, ok := kit.Root(ev).(*ssa.Extract); ok {
+			if call, ok := ex.Tuple.(*ssa.Call); ok && strings.HasPrefix(kit.CalleeName(call), "github.com/golang/snappy.") {
+				good = true
+			}
+		}
+		c.Check(good, sDec, "decode-error-is-library-error", r.Pos(), "Decode returns the snappy library's error unchanged", "snappyCodec.Decode rejects input on a condition of its own (not the library's verdict): chunks a conforming server may produce - larger than this client's own chunk size - are refused")
+	})
 	for _, fn := range []*ssa.Function{sEnc, sDec} {
 		kit.Instrs(fn, func(in ssa.Instruction) {
 			r, ok := in.(*ssa.Return)
